@@ -61,7 +61,7 @@ def scalar_values(strlen):
             yield ['i', t, v]
     for v in (0, 1, -1, 255, 2**64 - 1, -2**63, 2**70, 7, 8, 10, 16):
         yield ['i', None, v]
-    for f in REALS:
+    for f in REALS + D.DECIMAL_REALS:
         for t in (None, 'real32', 'real64'):
             yield D.fspec(f, t)
     for s in D.DATETIMES + D.INTERVALS:
